@@ -97,7 +97,9 @@ reg("C01",
     "invariance of the weight; collected in `reduction`. The integral identity itself needs Schwinger parametrisation, Borinsky's "
     "sector-density theorem, which are cited, not formalised; three of the measure-theoretic steps ARE proved (Mathlib): the Box-Muller theorem "
     "(C13.boxMuller_law), the Gaussian law of the loop momenta (C10.momenta_law: centre -L^-1u, covariance (V/2 lambda) L^-1, normalisation "
-    "sqrt(det L)/c^L) and the inverse-CDF lemma for an exact quantile function (inverse_cdf_law). Tie to the code: end-to-end correspondence "
+    "sqrt(det L)/c^L) the inverse-CDF lemma for an exact quantile function (inverse_cdf_law) and one step of the sector sample (xi_power_law: y = c xi^(1/omega) "
+    "has density omega y^(omega-1)/c^omega on (0,c)); together with the telescoping sector probability C04.orderProb_eq these are the "
+    "building blocks of the sector density, whose assembly over E-1 nested steps and the identification with U_tr^(-D/2) V_tr^(-dod) remain cited. Tie to the code: end-to-end correspondence "
     "of sample on multi-loop/massive/non-trivial routings; supporting fixed-seed Monte Carlo against closed forms (tadpole, bubble, "
     "two-tadpole product under two routings; mean of jacobian*g = (pi/alpha)^(DL/2) for triangle, sunrise k1+-k2, double triangle, banana).",
     "Three classical theorems cited; Monte Carlo is a statistical supporting test (6 sigma + 0.5%), not a proof.",
@@ -175,7 +177,8 @@ reg("C12",
     "PARTIAL on accuracy. Lean, law-free, for every scalar type and every implementation of the statrs functions: Ok implies the "
     "value is finite and >0 under the scalar's comparisons (after fix b2abcbe), anything else is GammaError, Ok is exactly the "
     "implementation's value; the iteration makes at most max_n_iter steps and every return is one of five exits; on `converged` "
-    "the computed residual is < tol*eps. The 2e-8 accuracy over the whole domain is numerical analysis (not provable here): decided "
+    "the computed residual is < tol*eps; alpha:=R - monotone_up_to_tol: for any strictly increasing F and any lam with |F(lam p)-p| <= t, "
+    "p1+2t < p2 forces lam p1 < lam p2 (the 'hence monotone' implication of the property). The 2e-8 accuracy over the whole domain is numerical analysis (not provable here): decided "
     "by mpmath on 1.2e4/3e5 pairs incl. all branch boundaries. The model contains a Lean port of statrs 0.16.1 gamma/ln_gamma/"
     "gamma_lr/gamma_ur and reproduces the real function bit for bit (value and exit).",
     "statrs modelled (ported), not verified; accuracy clause oracle-only.",
